@@ -60,8 +60,8 @@ Proof. exact tp_own_after_window. Qed.
 Print Assumptions C08_update_region_own.
 
 (* the executable oracle that is run over implementation traces never fires on a trace of the model *)
-Theorem C08_oracle_accepts_model : forall probes ops,
-  tp_oracle probes (tp_model_trace probes tp_empty ops) = None.
+Theorem C08_oracle_accepts_model : forall ma probes ops,
+  tp_oracle ma probes (tp_model_trace ma probes tp_empty ops) = None.
 Proof. exact tp_oracle_accepts_model. Qed.
 Print Assumptions C08_oracle_accepts_model.
 
@@ -81,37 +81,37 @@ Print Assumptions C08_oracle_accepts_model.
        prefer_includes ? (own /\ ~E) \/ I : (own \/ I) /\ ~E
    with I, E read from the referenced periods as they were at the period's last round that was not UpdateRegion's
    early return (snd of tp_roll; C08_rolling_view: that is the current round whenever valid_end <= now + 24 h). *)
-Theorem C08_rolling_updates : forall (ownP : Z -> bool) upd hz prefer,
+Theorem C08_rolling_updates : forall (ownP : Z -> bool) upd hz prefer ma,
   (forall b e t, tp_inside_segs (upd b e) t = true -> ownP t = true) ->
   (forall b e t, b <= e -> b <= t < hz e -> tp_inside_segs (upd b e) t = ownP t) ->
   (forall e, e <= hz e) ->
   (forall b e sg, In sg (upd b e) -> snd sg <= hz e) ->
   forall r0 rs,
   tp_round_ok hz r0 -> tp_env_ok hz r0 rs ->
-  let s := fst (tp_roll upd prefer r0 rs) in
-  let rl := snd (tp_roll upd prefer r0 rs) in
+  let s := fst (tp_roll ma upd prefer r0 rs) in
+  let rl := snd (tp_roll ma upd prefer r0 rs) in
   forall t, Z.max (tp_rr_now r0) (tp_rr_now (last rs r0) - 3600) <= t < tp_ve_num s ->
     tp_is_inside s t =
     tp_region_spec prefer (ownP t) (tp_inside_any (tp_rr_incs rl) t) (tp_inside_any (tp_rr_excs rl) t).
 Proof. exact tp_rolling_updates. Qed.
 Print Assumptions C08_rolling_updates.
 
-Theorem C08_rolling_view : forall upd prefer r0 rs r,
-  tp_roll_effective r (fst (tp_roll upd prefer r0 rs)) = true ->
-  snd (tp_roll upd prefer r0 (rs ++ [r])) = r.
+Theorem C08_rolling_view : forall upd prefer ma r0 rs r,
+  tp_roll_effective r (fst (tp_roll ma upd prefer r0 rs)) = true ->
+  snd (tp_roll ma upd prefer r0 (rs ++ [r])) = r.
 Proof. exact tp_rolling_view. Qed.
 Print Assumptions C08_rolling_view.
 
 (* the oracle check of a timer round (run over the implementation's IsInside bits at the probes) accepts the model ... *)
-Theorem C08_rolling_oracle_accepts_model : forall (ownP : Z -> bool) upd hz prefer,
+Theorem C08_rolling_oracle_accepts_model : forall (ownP : Z -> bool) upd hz prefer ma,
   (forall b e t, tp_inside_segs (upd b e) t = true -> ownP t = true) ->
   (forall b e t, b <= e -> b <= t < hz e -> tp_inside_segs (upd b e) t = ownP t) ->
   (forall e, e <= hz e) ->
   (forall b e sg, In sg (upd b e) -> snd sg <= hz e) ->
   forall r0 rs probes,
   tp_round_ok hz r0 -> tp_env_ok hz r0 rs ->
-  let s := fst (tp_roll upd prefer r0 rs) in
-  let rl := snd (tp_roll upd prefer r0 rs) in
+  let s := fst (tp_roll ma upd prefer r0 rs) in
+  let rl := snd (tp_roll ma upd prefer r0 rs) in
   tp_roll_answers_ok prefer (Z.max (tp_rr_now r0) (tp_rr_now (last rs r0) - 3600)) (tp_ve_num s)
     (map (fun t => (t, (tp_is_inside s t, ownP t),
                     (tp_inside_any (tp_rr_incs rl) t, tp_inside_any (tp_rr_excs rl) t))) probes) = None.
@@ -142,24 +142,80 @@ Theorem C08_rolling_current_view_refuted :
   (forall e, e <= hz e) /\
   (forall b e sg, In sg (upd b e) -> snd sg <= hz e) /\
   tp_round_ok hz r0 /\ tp_env_ok hz r0 rs /\
-  snd (tp_roll upd true r0 rs) = r0 /\
-  tp_is_inside (fst (tp_roll upd true r0 rs)) 1500 = true /\
+  snd (tp_roll false upd true r0 rs) = r0 /\
+  tp_is_inside (fst (tp_roll false upd true r0 rs)) 1500 = true /\
   tp_region_spec true (ownP 1500) (tp_inside_any [] 1500) (tp_inside_any [x] 1500) = false.
 Proof. exact tp_rolling_current_view_refuted. Qed.
 Print Assumptions C08_rolling_current_view_refuted.
 
+(* ... FIXED in the second form of UpdateRegion (repo_patches/C08-merge-references-every-round.diff: a call that has no
+   stretch of the period's own to compute still merges the referenced periods, cut off at valid_end): the same witness
+   answers "outside" at 1500 from the first round on, valid_end does not move in the rounds that only merge, and the view
+   is always the last round's (C08_rolling_view_fixed).  WHAT REMAINS: with no round yet the state is that of Start() in
+   both forms - a referenced period started later is not seen until the first timer round (at most 5 minutes). *)
+Theorem C08_rolling_current_view_fixed :
+  let upd := fun b e : Z => [(b, e + 50000)] in
+  let x := [(1000, 2000)] in
+  let r0 : tp_rround := (0, [], [[]]) in
+  let r1 : tp_rround := (300, [], [x]) in
+  let rs : list tp_rround := [r1; (600, [], [x]); (900, [], [x])] in
+  snd (tp_roll true upd true r0 rs) = (900, [], [x]) /\
+  tp_is_inside (fst (tp_roll true upd true r0 [r1])) 1500 = false /\
+  tp_is_inside (fst (tp_roll true upd true r0 rs)) 1500 = false /\
+  tp_is_inside (fst (tp_roll true upd true r0 rs)) 2500 = true /\
+  tp_ve_num (fst (tp_roll true upd true r0 rs)) = tp_ve_num (fst (tp_roll true upd true r0 [])) /\
+  tp_is_inside (fst (tp_roll true upd true r0 [])) 1500 = true /\
+  fst (tp_roll true upd true r0 []) = fst (tp_roll false upd true r0 []).
+Proof. exact tp_rolling_current_view_fixed. Qed.
+Print Assumptions C08_rolling_current_view_fixed.
+
+Theorem C08_rolling_view_fixed : forall upd prefer r0 rs, snd (tp_roll true upd prefer r0 rs) = last rs r0.
+Proof. exact tp_rolling_view_fixed. Qed.
+Print Assumptions C08_rolling_view_fixed.
+
+(* the two forms of UpdateRegion differ only in the call that has no stretch of the period's own to compute; there the
+   second form leaves valid_end alone and, below it, unites / subtracts the referenced periods with the old answer in
+   the place of "own" (so every single-call theorem above holds for both forms) *)
+Theorem C08_update_region_forms : forall ma upd prefer incs excs b e clear s,
+  (clear = false -> tp_ve_num s <= e) ->
+  tp_update_region_ma true ma upd prefer incs excs b e clear s = tp_update_region true upd prefer incs excs b e clear s.
+Proof. exact (tp_update_region_ma_effective true). Qed.
+Print Assumptions C08_update_region_forms.
+
+Theorem C08_update_region_merge_only : forall upd prefer incs excs b e s v,
+  tp_ve s = Some v -> e < v ->
+  tp_update_region_ma true false upd prefer incs excs b e false s = s /\
+  tp_ve (tp_update_region_ma true true upd prefer incs excs b e false s) = Some v /\
+  forall t, t < v ->
+    tp_inside_segs (tp_segs (tp_update_region_ma true true upd prefer incs excs b e false s)) t =
+    tp_region_spec prefer (tp_inside_segs (tp_segs s) t) (tp_inside_any incs t) (tp_inside_any excs t).
+Proof.
+  intros upd prefer incs excs b e s v Hv He.
+  assert (tp_ve_num s = v) as Hn by (unfold tp_ve_num; rewrite Hv; reflexivity).
+  unfold tp_update_region_ma. rewrite Hn. assert ((negb false && (e <? v)) = true) as -> by (cbn; lia).
+  destruct (tp_merge_only_spec prefer incs excs s v Hv) as [H1 H2].
+  split; [reflexivity|]. split; [exact H1|]. intros t Ht. rewrite H2. unfold tp_below.
+  assert ((t <? v) = true) as -> by lia. reflexivity.
+Qed.
+Print Assumptions C08_update_region_merge_only.
+
+(* the third form fact was recognised in the source *)
+Theorem C08_update_region_form_recognised : Facts.Facts_c08.f_tp_merge_always <> None.
+Proof. discriminate. Qed.
+Print Assumptions C08_update_region_form_recognised.
+
 (* (2) tp_round_mono cannot be dropped: what an included period wrongly reported for one round (it excludes a third period
        that is updated after it) stays in the including period for good *)
-Theorem C08_rolling_needs_monotone_refuted :
+Theorem C08_rolling_needs_monotone_refuted : forall ma : bool,
   let upd := fun _ _ : Z => @nil tp_seg in
   let hz := fun e : Z => e in
   let r0 : tp_rround := (0, [[(0, 86400)]], []) in
   let r1 : tp_rround := (4000, [[(0, 90400)]], []) in
   let r2 : tp_rround := (4300, [[(0, 90000); (90400, 90700)]], []) in
   tp_round_ok hz r0 /\ tp_round_ok hz r1 /\ tp_round_ok hz r2 /\
-  snd (tp_roll upd true r0 [r1; r2]) = r2 /\
-  tp_ve_num (fst (tp_roll upd true r0 [r1; r2])) = 90700 /\
-  tp_is_inside (fst (tp_roll upd true r0 [r1; r2])) 90200 = true /\
+  snd (tp_roll ma upd true r0 [r1; r2]) = r2 /\
+  tp_ve_num (fst (tp_roll ma upd true r0 [r1; r2])) = 90700 /\
+  tp_is_inside (fst (tp_roll ma upd true r0 [r1; r2])) 90200 = true /\
   tp_region_spec true false (tp_inside_any (tp_rr_incs r2) 90200) (tp_inside_any (tp_rr_excs r2) 90200) = false.
 Proof. exact tp_rolling_needs_monotone_refuted. Qed.
 Print Assumptions C08_rolling_needs_monotone_refuted.
@@ -174,11 +230,11 @@ Example C08_nonvacuous_rolling :
   let r0 : tp_rround := (0, [], [x1]) in
   let rs : list tp_rround := [(300, [], [x1]); (600, [], [x2]); (900, [], [x2])] in
   tp_round_ok (fun e => e) r0 /\ tp_env_ok (fun e => e) r0 rs /\
-  tp_ve_num (fst (tp_roll upd true r0 rs)) = 86400 + 900 /\
-  tp_is_inside (fst (tp_roll upd true r0 rs)) 1500 = false /\
-  tp_is_inside (fst (tp_roll upd true r0 rs)) (86400 + 420) = false /\
-  tp_is_inside (fst (tp_roll upd true r0 rs)) (86400 + 500) = true /\
-  tp_is_inside (fst (tp_roll upd true r0 [(300, [], [x1]); (600, [], [x1])])) (86400 + 420) = true.
+  tp_ve_num (fst (tp_roll false upd true r0 rs)) = 86400 + 900 /\
+  tp_is_inside (fst (tp_roll false upd true r0 rs)) 1500 = false /\
+  tp_is_inside (fst (tp_roll false upd true r0 rs)) (86400 + 420) = false /\
+  tp_is_inside (fst (tp_roll false upd true r0 rs)) (86400 + 500) = true /\
+  tp_is_inside (fst (tp_roll false upd true r0 [(300, [], [x1]); (600, [], [x1])])) (86400 + 420) = true.
 Proof.
   cbv zeta.
   assert (forall a b t, tp_inside_any (tp_rr_excs a) t = true ->
@@ -268,15 +324,15 @@ Print Assumptions C08_spec_meaning.
 (* the calendar oracle run over implementation traces accepts what the model computes for a zone without
    transitions, in either form, outside what is left of F-C08-b (no range of a day before the loop's first day reaches
    a probe), whenever the probes of the case cover what the written ranges ask for (allr = the ranges of every period of the case) *)
-Theorem C08_calendar_oracle_accepts_model_partial : forall c rnd lb allr ranges prefer incs excs b e clear probes pre,
+Theorem C08_calendar_oracle_accepts_model_partial : forall c rnd lb ma allr ranges prefer incs excs b e clear probes pre,
   tp_ranges_bounded ranges ->
   let off := fun _ : Z => c in
   let mk := fun l : Z => l - c in
-  let post := tp_update_region true (tp_script_func off mk rnd lb ranges) prefer incs excs b e clear pre in
+  let post := tp_update_region_ma true ma (tp_script_func off mk rnd lb ranges) prefer incs excs b e clear pre in
   tp_probes_cover probes (tp_spec_bounds c [] allr (tp_upd_begin b clear pre) e) = true ->
   (forall t d, In t probes -> tp_upd_begin b clear pre <= t < e ->
                d < tp_first_day off lb (tp_upd_begin b clear pre) -> tp_day_covers off mk false ranges d t = false) ->
-  tp_cal_step_ok c [] allr ranges prefer incs excs b e clear probes pre post (map (tp_is_inside post) probes) = None.
+  tp_cal_step_ok c [] ma allr ranges prefer incs excs b e clear probes pre post (map (tp_is_inside post) probes) = None.
 Proof. exact tp_cal_step_ok_model_const. Qed.
 Print Assumptions C08_calendar_oracle_accepts_model_partial.
 
@@ -285,23 +341,23 @@ Print Assumptions C08_calendar_oracle_accepts_model_partial.
    the computed window [b', e) that differs from the statement
        prefer_includes ? (own /\ ~E) \/ I : (own \/ I) /\ ~E,   own = wall-clock statement over the WRITTEN ranges
    makes the oracle report the step (any time zone table) *)
-Theorem C08_oracle_rejects_wrong_answer : forall base tab allr ranges prefer incs excs b e clear probes pre post ins t o,
+Theorem C08_oracle_rejects_wrong_answer : forall base tab ma allr ranges prefer incs excs b e clear probes pre post ins t o,
   (negb clear && (e <? tp_ve_num pre)) = false ->
   In (t, o) (combine probes ins) ->
   tp_upd_begin b clear pre <= t < e ->
   o <> tp_region_spec prefer (tp_spec_inside (tp_tab_off base tab) (tp_tab_mk base tab) false None tp_back ranges t)
                       (tp_inside_any incs t) (tp_inside_any excs t) ->
-  tp_cal_step_ok base tab allr ranges prefer incs excs b e clear probes pre post ins <> None.
+  tp_cal_step_ok base tab ma allr ranges prefer incs excs b e clear probes pre post ins <> None.
 Proof. exact tp_cal_step_rejects_wrong_answer. Qed.
 Print Assumptions C08_oracle_rejects_wrong_answer.
 
 (* ... at instants chosen from the specification: it reports the step (class "probes") unless the probes contain both
    boundaries of every written time range of every period of the case on every day that can reach the window, the two
    neighbours of each, and an instant in the middle half of every gap between consecutive boundaries *)
-Theorem C08_oracle_needs_spec_probes : forall base tab allr ranges prefer incs excs b e clear probes pre post ins,
+Theorem C08_oracle_needs_spec_probes : forall base tab ma allr ranges prefer incs excs b e clear probes pre post ins,
   (negb clear && (e <? tp_ve_num pre)) = false ->
   tp_probes_cover probes (tp_spec_bounds base tab allr (tp_upd_begin b clear pre) e) = false ->
-  tp_cal_step_ok base tab allr ranges prefer incs excs b e clear probes pre post ins <> None.
+  tp_cal_step_ok base tab ma allr ranges prefer incs excs b e clear probes pre post ins <> None.
 Proof. exact tp_cal_step_needs_spec_probes. Qed.
 Print Assumptions C08_oracle_needs_spec_probes.
 
